@@ -10,6 +10,7 @@ use std::time::Duration;
 use rt::run::{self, ParentArgs, Plan, Tier, WorkerArgs};
 
 mod plans;
+mod probes;
 
 #[cfg(feature = "std")]
 pub const FLAVOUR: &str = "all";
@@ -38,6 +39,9 @@ fn main() {
         "run" => {
             let prop = arg(&args, "--property").expect("--property");
             let tier = Tier::parse(&arg(&args, "--tier").unwrap_or_else(|| "quick".into())).expect("tier");
+            if prop == "C13" {
+                std::process::exit(probes::run_parent(tier, seed));
+            }
             let plan = plan_or_die(&prop, tier);
             let mut bins = BTreeMap::new();
             let me = std::env::current_exe().unwrap().to_string_lossy().into_owned();
@@ -71,6 +75,9 @@ fn main() {
         "replay" => {
             let path = std::path::PathBuf::from(args.get(2).expect("replay file"));
             let quiet = args.iter().any(|a| a == "--quiet");
+            if std::fs::read_to_string(&path).map(|t| t.contains("engine=probe")).unwrap_or(false) {
+                std::process::exit(probes::replay(&path));
+            }
             let Some(rf) = run::parse_replay(&path) else {
                 eprintln!("cannot parse replay file {}", path.display());
                 std::process::exit(2);
